@@ -34,6 +34,7 @@ run_demo() { # $1 = tree root with _build
 case "$DEMO" in
  *.cc|*.cpp)
   out demo_with_patch="$(run_demo $W)"
+  cmake --build /repo/_build -j8 --target vita >/dev/null 2>&1   # the reference library must match /repo HEAD
   FL="-std=c++17 -O1 -g -DNDEBUG -I/repo/src -isystem /repo/src/third_party"
   out demo_without_patch="$(run_demo /repo)" ;;
  *) out demo_with_patch="not a C++ demo: run by hand per demo.txt" ;;
